@@ -39,6 +39,7 @@ fn main() {
         "concat" => concat(&input),
         "eval_subst" => eval_subst(&input),
         "call_resolve" => call_resolve(&input),
+        "extern_roundtrip" => extern_roundtrip(&input),
         "gate_match" => gate_match(&input),
         "memory_accesses" => memory_accesses(&input),
         "type_check_oracle" => type_check_oracle(&input),
@@ -405,10 +406,20 @@ fn frame_match(text: &str) -> Result<(), String> {
 /// process, which the caller sees as a non-zero exit status
 fn expand_terminates(text: &str) -> Result<(), String> {
     let program = Program::from_str(text).map_err(|e| format!("input does not parse: {e}"))?;
+    let expect_ok = text.lines().next().map_or(false, |l| l.trim() == "# expect ok");
+    let expect_recursive = text.lines().next().map_or(false, |l| l.trim() == "# expect recursive");
     match program.expand_calibrations() {
-        Ok(p) => println!("expanded: {} body instructions", p.body_instructions().count()),
+        Ok(p) => {
+            println!("expanded: {} body instructions", p.body_instructions().count());
+            if expect_recursive {
+                return Err("a calibration that invokes itself expanded without an error".to_string());
+            }
+        }
         Err(e) => {
             println!("error: {e}");
+            if expect_ok {
+                return Err(format!("no calibration invokes itself here, but expansion failed: {e}"));
+            }
             if !matches!(e, quil_rs::program::ProgramError::RecursiveCalibration(_)) {
                 return Err(format!("expansion failed with an error other than a recursive calibration: {e}"));
             }
@@ -914,6 +925,45 @@ fn concat(text: &str) -> Result<(), String> {
                 return Err(format!("{what}: gate {name} defined only in a is not kept"));
             }
         }
+        // calibrations: b's win, a's others are kept
+        for c in pb.calibrations.iter_calibrations() {
+            if !s.calibrations.iter_calibrations().any(|x| x == c) {
+                return Err(format!("{what}: a DEFCAL of b is missing from the sum"));
+            }
+        }
+        for c in pa.calibrations.iter_calibrations() {
+            let replaced = pb.calibrations.iter_calibrations().any(|x| x.identifier == c.identifier);
+            if !replaced && !s.calibrations.iter_calibrations().any(|x| x == c) {
+                return Err(format!("{what}: a DEFCAL defined only in a is not kept"));
+            }
+        }
+        for c in pb.calibrations.iter_measure_calibrations() {
+            if !s.calibrations.iter_measure_calibrations().any(|x| x == c) {
+                return Err(format!("{what}: a DEFCAL MEASURE of b is missing from the sum"));
+            }
+        }
+        // order within each keyed definition kind: a's keys in a's order, then b's new keys in b's order
+        let order = |a: Vec<String>, b: Vec<String>| -> Vec<String> {
+            let mut v = a.clone();
+            for k in b {
+                if !v.contains(&k) {
+                    v.push(k);
+                }
+            }
+            v
+        };
+        let gate_order: Vec<String> = s.gate_definitions.keys().cloned().collect();
+        if gate_order != order(pa.gate_definitions.keys().cloned().collect(), pb.gate_definitions.keys().cloned().collect()) {
+            return Err(format!("{what}: gate definitions are in the order {gate_order:?}: not a's first, then b's new ones"));
+        }
+        let region_order: Vec<String> = s.memory_regions.keys().cloned().collect();
+        if region_order != order(pa.memory_regions.keys().cloned().collect(), pb.memory_regions.keys().cloned().collect()) {
+            return Err(format!("{what}: declarations are in the order {region_order:?}: not a's first, then b's new ones"));
+        }
+        let wave_order: Vec<String> = s.waveforms.keys().cloned().collect();
+        if wave_order != order(pa.waveforms.keys().cloned().collect(), pb.waveforms.keys().cloned().collect()) {
+            return Err(format!("{what}: waveforms are in the order {wave_order:?}: not a's first, then b's new ones"));
+        }
         let used: std::collections::HashSet<_> = pa.get_used_qubits().union(pb.get_used_qubits()).cloned().collect();
         // (when b redefines a calibration of a, the qubits of the replaced body are no longer mentioned: C10 governs)
         if !s.get_used_qubits().is_subset(&used) {
@@ -1214,6 +1264,23 @@ fn call_resolve(text: &str) -> Result<(), String> {
             if got.reads != reads || got.writes != writes || !got.captures.is_empty() {
                 return Err(format!("`{shown}` reports reads {:?} writes {:?} captures {:?}; the rules give reads {reads:?} writes {writes:?}", got.reads, got.writes, got.captures));
             }
+        }
+    }
+    Ok(())
+}
+
+/// C31 (first sentence): every valid extern signature prints to text that parses back to the same signature
+fn extern_roundtrip(text: &str) -> Result<(), String> {
+    use quil_rs::instruction::{ExternSignature, ExternSignatureMap};
+    use quil_rs::quil::Quil;
+    let program = Program::from_str(text).map_err(|e| format!("input does not parse: {e}"))?;
+    let externs = ExternSignatureMap::try_from(program.extern_pragma_map.clone()).map_err(|(p, e)| format!("extern {p:?}: {e:?}"))?;
+    for (name, signature) in externs.iter() {
+        let printed = signature.to_quil().map_err(|e| format!("signature of {name} does not print: {e}"))?;
+        let back = ExternSignature::from_str(&printed).map_err(|e| format!("signature of {name} prints as `{printed}`, which does not parse: {e:?}"))?;
+        println!("{name}: {printed}");
+        if back != *signature {
+            return Err(format!("signature of {name} prints as `{printed}`, which parses to a different signature"));
         }
     }
     Ok(())
